@@ -10,7 +10,7 @@ stdin: the journal of `harness/c12_interval.cc`, one event per line
 * `ty`  : `Q` (`Rational_Interval`, mpq, policy rational), `Z` (`Interval<mpz_class, Z_Box_Interval_Info>`),
           `D` (`Interval<double, Floating_Point_Box_Interval_Info>`)
 * `op`  : `neg add sub mul div join meet diff join2 meet2 contains scontains disjoint eq
-          rex:<rel> run:<rel> wrap:<w>:<u|s> assign isempty`
+          rex:<rel> run:<rel> wrap:<w>:<u|s> assign cc76`
 * `I J` : operands as the harness built them, `R` the result read from the real library:
           `E` (is_empty()), or `[l,u]` / `(l,u)` … with `l,u` exact rationals or `-inf` / `+inf`,
           or `T` / `F` for predicates; `-` for a missing operand
@@ -343,6 +343,12 @@ def process (d3 d12 : Bool) (line : String) : List String :=
             | [] => []
             | (a, c) :: _ => [mism id "enclose" tg ("a=" ++ toString a ++ " wraps to " ++ showRat c ++ " (inside the refinement) not in " ++ rs)]
           m ++ e ++ okl
+        else if opn == "cc76" then
+          -- widening: the result must contain the widened interval; no exactness is claimed
+          let modelRes := cc76Widening p I J [-2, -1, 0, 1, 2]
+          let ms := showIv t modelRes
+          (if ms == rs then [] else [mism id "model" "" ("model=" ++ ms ++ " real=" ++ rs)])
+            ++ unSamples sI some [] "cc76" ++ okl
         else if opn == "contains" then
           predOp (contains p I J) (some (Spec.subset sJ sI))
         else if opn == "scontains" then
@@ -368,6 +374,34 @@ partial def loop (d3 d12 : Bool) (h : IO.FS.Stream) (out : IO.FS.Stream) : IO Un
       out.putStrLn l
     loop d3 d12 h out
 
+/-- `--selftest`: search the MODEL (rational policy, exact rounding, the given switches) for an
+operand pair whose result does not contain the exact hull / is not the hull, over the template set of
+the harness.  Used by the check when a proof obligation no longer builds: a counterexample to the
+enclosure in the model is a concrete failing input. -/
+def selftest (d3 : Bool) : List String :=
+  let p := Policy.rational
+  let R := Rounding.id
+  let vals : List Rat := [-3, -1, 0, 1/2, 2]
+  let fins : List ExtRat := vals.map fin
+  let los : List Bound := (⟨ninf, true⟩ : Bound) :: fins.flatMap (fun v => [⟨v, false⟩, ⟨v, true⟩])
+  let his : List Bound := (⟨pinf, true⟩ : Bound) :: fins.flatMap (fun v => [⟨v, false⟩, ⟨v, true⟩])
+  let ivs : List Iv := Iv.empty :: (los.flatMap fun l => his.filterMap fun h =>
+    let x : Iv := ⟨l, h⟩
+    if isEmpty p x then none else some x)
+  let t : Ty := ⟨"Q", p, R, true, false⟩
+  let ops : List (String × (Iv → Iv → Iv) × (Spec.SI → Spec.SI → Spec.SI)) :=
+    [("add", addAssign p R, Spec.add), ("sub", subAssign p R, Spec.sub), ("mul", mulAssign d3 p R, Spec.mul),
+     ("div", divAssign p R, Spec.div), ("join", joinAssign p R, Spec.join), ("meet", intersectAssign p R, Spec.meet),
+     ("diff", differenceAssign p R, Spec.diff)]
+  ivs.flatMap fun x => ivs.flatMap fun y => ops.filterMap fun (nm, f, sp) =>
+    let r := Spec.ofIv (f x y)
+    let s := sp (Spec.ofIv x) (Spec.ofIv y)
+    if !Spec.subset s r then
+      some ("SELFTEST-FAIL enclose " ++ nm ++ " " ++ showIv t x ++ " " ++ showIv t y ++ " model=" ++ showIv t (f x y))
+    else if nm != "div" && !Spec.seteq s r then
+      some ("SELFTEST-FAIL exact " ++ nm ++ " " ++ showIv t x ++ " " ++ showIv t y ++ " model=" ++ showIv t (f x y))
+    else none
+
 def argFlag (args : List String) (name : String) (dflt : Bool) : Bool :=
   match args with
   | a :: v :: rest => if a == name then v == "1" else argFlag (v :: rest) name dflt
@@ -378,7 +412,13 @@ end C12Driver
 def main (args : List String) : IO UInt32 := do
   let d3 := C12Driver.argFlag args "--d3" true
   let d12 := C12Driver.argFlag args "--d12" true
-  let stdin ← IO.getStdin
   let stdout ← IO.getStdout
+  if args.contains "--selftest" then
+    let fails := C12Driver.selftest d3
+    for l in fails.take 20 do
+      stdout.putStrLn l
+    stdout.putStrLn ("selftest failures " ++ toString fails.length)
+    return 0
+  let stdin ← IO.getStdin
   C12Driver.loop d3 d12 stdin stdout
   return 0
